@@ -435,6 +435,14 @@ class C13(Engine):
     def gen(self, rng, i, tier):
         return gen(rng, tier)
 
+    def stable_digest(self, res):
+        # Ruler.__compile__ iterates a set of chain names: under another PYTHONHASHSEED the same step number falls on
+        # another line of that function.  Everything else (steps, threads, results) must still agree.
+        import re
+        from ..core import digest
+        ev = re.sub(r"ruler\.py:__compile__:\d+", "ruler.py:__compile__:*", __import__("json").dumps(res.events))
+        return digest({"events": ev, "violation": res.violation["cls"] if res.violation else None})
+
     def execute(self, rec):
         res = RunResult()
         try:
